@@ -351,6 +351,50 @@ type mwReturn struct {
 	// in: the returned triple is built by a private helper (`return reject(id, …)`);
 	// values of the reply are the helper's, read through this call
 	in *ssa.CallCommon
+	// clause / via: the return is a tail shared by several clauses of the type switch (each
+	// clause only sets per-clause variables): this entry stands for the paths through the
+	// clause of message type `clause`, which all pass block `via`
+	clause string
+	via    *ssa.BasicBlock
+}
+
+// msgType: the message type of the clause this return belongs to.
+func (r mwReturn) msgType() string {
+	if r.clause != "" {
+		return r.clause
+	}
+	return assertedType(r.fn, r.ret.Block(), r.msgPath)
+}
+
+// keep: the paths this entry stands for (nil: all paths to the return).
+func (r mwReturn) keep() an.PathKeep {
+	if r.via != nil {
+		return an.Via(r.via)
+	}
+	return nil
+}
+
+// clauseEntries: the blocks entered exactly when msgPath was asserted to a client message type.
+func clauseEntries(fn *ssa.Function, msgPath string) map[*ssa.BasicBlock]string {
+	out := map[*ssa.BasicBlock]string{}
+	for _, b := range fn.Blocks {
+		iff, ok := an.LastInstr(b).(*ssa.If)
+		if !ok || len(b.Succs) != 2 {
+			continue
+		}
+		ex, ok := iff.Cond.(*ssa.Extract)
+		if !ok || ex.Index != 1 {
+			continue
+		}
+		ta, ok := ex.Tuple.(*ssa.TypeAssert)
+		if !ok || an.PathOf(ta.X) != msgPath {
+			continue
+		}
+		if n := typeNameOf(ta.AssertedType); strings.HasPrefix(n, "Client") && len(b.Succs[0].Preds) == 1 {
+			out[b.Succs[0]] = n
+		}
+	}
+	return out
 }
 
 func (r mwReturn) pathOf(v ssa.Value) string {
@@ -455,6 +499,25 @@ func classifyClientReturns(P *core.Program, fn *ssa.Function, msgParam int, dept
 			mr.detail = fmt.Sprintf("forward=%v(%d) reject=%v(%d) err-nil=%v", fok, len(fwd), rok, len(rej), errNil)
 			if fok && len(fwd) == 1 {
 				mr.detail += " forwarded=" + an.PathOf(fwd[0])
+			}
+		}
+		// a tail shared by several clauses: one entry per clause that reaches it
+		if (mr.kind == "reject" || mr.kind == "forward") && mr.in == nil && assertedType(fn, rb, msgPath) == "" {
+			var vias []*ssa.BasicBlock
+			ents := clauseEntries(fn, msgPath)
+			for b := range ents {
+				if b == rb || an.Reachable(b, rb, nil, nil) {
+					vias = append(vias, b)
+				}
+			}
+			sort.Slice(vias, func(i, j int) bool { return vias[i].Index < vias[j].Index })
+			if mr.kind == "reject" && len(vias) >= 2 {
+				for _, b := range vias {
+					m2 := mr
+					m2.clause, m2.via = ents[b], b
+					out = append(out, m2)
+				}
+				continue
 			}
 		}
 		out = append(out, mr)
@@ -590,7 +653,7 @@ func runMwRejectType(c *core.Ctx) {
 				continue
 			}
 			c.CountSites(1)
-			mt := assertedType(r.fn, r.ret.Block(), r.msgPath)
+			mt := r.msgType()
 			idx[mt]++
 			construct := fmt.Sprintf("reject[%s]#%d", mt, idx[mt])
 			ok, why := checkReply(P, r, mt)
@@ -695,9 +758,11 @@ func runMwBound(c *core.Ctx) {
 		construct := "bound[" + row.msgType + "]"
 		// reject returns of this message type
 		var rejects []*ssa.Return
+		keeps := map[*ssa.Return]an.PathKeep{}
 		for _, r := range classifyClientReturns(P, fn, 2, 0) {
-			if r.kind == "reject" && r.fn == fn && assertedType(fn, r.ret.Block(), msgPath) == row.msgType {
+			if r.kind == "reject" && r.fn == fn && r.msgType() == row.msgType {
 				rejects = append(rejects, r.ret)
+				keeps[r.ret] = r.keep()
 			}
 		}
 		c.CountFuncs(1)
@@ -723,7 +788,7 @@ func runMwBound(c *core.Ctx) {
 				rej := an.Empty()
 				var opq []an.Cond
 				for _, r := range rejects {
-					s, n, _ := fr.ReachSet(fn, r.Block(), nil, &opq)
+					s, n, _ := fr.ReachSet(fn, r.Block(), keeps[r], &opq)
 					c.CountPaths(n)
 					rej = rej.Union(s)
 				}
